@@ -342,6 +342,8 @@ def main(chk):
     quick = chk.tier == "quick"
     n = 128 if quick else 1500
     jobs = [{"id": "j%d" % i, "seed": job_seed(chk.seed, "C15", i), "queries": 12 if quick else 24} for i in range(n)]
+    if not quick:
+        jobs += chk.shard(jobs[:200], "arith", 200)
     chk.run_jobs(jobs, budget_s=300 if quick else 3000)
     return chk.finish(
         rule="select lists of 1..5 expressions (depth <= 4) over integer literals, size, hardlinks, uid, length(name), abs/least/greatest/"
